@@ -27,7 +27,7 @@ var kindMap = map[reftok.Kind]parser.TokenKind{
 }
 
 var c09Alpha = []string{"a", "e", "x", "0", "1", ".", "+", "-", "'", "\"", "`", "\\", "n", "/", "\n", " ", "=", "!", "~", "<", ">",
-	"|", ";", "(", "[", ",", "_", "$", "%", "*", "é", " ", "\xff", "\x00", "\t", "\r"}
+	"|", ";", "(", "[", ",", "_", "$", "%", "*", "é", " ", "\xff", "\x00", "\t", "\r", "\xa0", "\x85", "\ufeff"}
 var c09NumAlpha = []string{"0", "1", "9", ".", "e", "E", "x", "X", "a", "f", "+", "-", ";"}
 var c09StrAlpha = []string{"'", "\"", "\\", "n", "a", "\n", "é", "\xff"}
 var c09IdAlpha = []string{"a", "i", "n", "b", "y", "o", "r", "d", "A", "_", "$", "0", "`", " ", "."}
@@ -81,6 +81,26 @@ func c09Main(r *run.Runner) {
 	r.Sweep("boundary-literals", int64(len(lits)), func(w *run.Worker, item int64) {
 		c09One(w, lits[item])
 		c09One(w, "a=="+lits[item]+";")
+	})
+	// sequences of tricky lexemes: state carried from one token to the next (buffers, look-ahead)
+	pool := []string{"a", "by", "1", "0x1f", ".5e1", "1e", "0x", "'p\\tq'", "\"r\\ns\"", "'u\\", "\"v\\tw", "'x", "`i`", "`j``k`", "`l", "// c", "//", "/", "!", "!=", "=~", "<=", "é", "\xff", "\xa0", "$x", ".", ";", "(", "'\\''", "\"\\\\\""}
+	seps := []string{"", " ", "\n", "\r\n", " \xa0", "\t\x85"}
+	k := 3
+	if r.Thorough() {
+		k = 4
+	}
+	pe := enum.Strings{Alpha: make([]string, len(pool)*len(seps)), MaxLen: k, Split: 1}
+	for i, l := range pool {
+		for j, sp := range seps {
+			pe.Alpha[i*len(seps)+j] = l + sp
+		}
+	}
+	bounds["lexeme_sequences"] = map[string]any{"pool": len(pool), "separators": len(seps), "max_lexemes": k, "strings": pe.Total()}
+	r.Sweep("lexeme-sequences", pe.Items(), func(w *run.Worker, item int64) {
+		pe.Do(item, func(buf []byte, _ []int) bool {
+			c09One(w, string(buf))
+			return !w.Stopped()
+		})
 	})
 	r.Extra["bounds"] = bounds
 	r.Sample("a=~'x\\n' // c")
